@@ -790,6 +790,45 @@ def size_key_of(facts, adt):
     return tuple("." + x for x in ps[0]) if len(ps) == 1 else None
 
 
+def size_init(facts, adt):
+    """how a length-limited reader's count of the bytes still owed is initialised for an evaluation of its destructor:
+    {place key: term}.  One `usize` quantity (directly or in a newtype): that quantity is SIZE.  Two of them -- the declared length and the
+    number of bytes pulled out so far (`remaining = declared - delivered`) --: the declared one is SIZE and the count starts at 0 (told apart by
+    evaluating `read`: the count is the one that grows by what the inner read returned).  None when neither shape applies."""
+    import drain_rules as DR, absint, inline, symex
+    import queue_rules as Q
+    ps = find_slot_paths(facts, adt, r"^usize$")
+    if len(ps) == 1:
+        return {(1, "*") + tuple("." + x for x in ps[0]): DR.SIZE}
+    if len(ps) != 2:
+        return None
+    rd = facts.trait_method(T_READ, adt, "read")
+    if rd is None:
+        return None
+    g0 = facts.fn(rd)
+    g = inline.inlined(facts, rd, stop=helper_stop(facts, g0.file), extern_ok=Q.std_small)
+    keys = [(1, "*") + tuple("." + x for x in p_) for p_ in ps]
+    N = ("sym", "count-read")
+    def on_call(bb, t, args, st):
+        if t.get("callee") in ("std::io::Read::read",):
+            return ("agg", "std::result::Result", "Ok", {"0": N})
+        return None
+    grows, same = set(), set()
+    for p in absint.explore(g, 0, None, on_call=on_call, max_paths=400):
+        if p.end[0] != "return" or not any(e[1] == "call" and e[6] == "std::io::Read::read" for e in p.events):
+            continue
+        for k in keys:
+            v = absint.deep(p.state, p.state.read_key(k))
+            if v == ("init", k):
+                same.add(k)
+            elif any(x and x[0] == "binop" and x[1] in ("Add", "AddWithOverflow", "AddUnchecked") and ("init", k) in (x[2], x[3]) for x in absint.walk_terms(v)):
+                grows.add(k)
+    if len(grows) == 1 and len(same - grows) == 1:
+        (kc,), (kd,) = tuple(grows), tuple(same - grows)
+        return {kd: DR.SIZE, kc: ("const", 0, "0_usize", None)}
+    return None
+
+
 def helper_stop(facts, file):
     """inlining boundary of a model that reads one file: functions of the crate in other files stay calls -- except free functions (no
     `impl`, no trait) of the crate and provided methods of its traits, which are plumbing that several files may share
